@@ -311,7 +311,7 @@ func writesThroughRoots(s *sided, allowed map[string]bool) []sideIssue {
 			if _, isId := unparen(l).(*ast.Ident); isId {
 				continue // rebinding a variable is not a write through it
 			}
-			sd := s.side(l)
+			sd := s.flowSide(l)
 			for _, r := range []string{"A", "B"} {
 				if strings.Contains(sd, r) && !allowed[r] {
 					out = append(out, sideIssue{l, fmt.Sprintf("writes %s, which belongs to the argument %s", s.rs.src(l), map[string]string{"A": s.A, "B": s.B}[r]), "write-through-arg", ""})
